@@ -26,7 +26,7 @@ def _c(tech, text):
     return {"technique": tech, "text": text, "note": TRUSTED}
 
 CLAIMED = {
-    "C01": _c(TS + "; call-graph confinement rules",
+    "C01": _c(TS + "; call-graph confinement rules; CFG must-pass-through contracts of the hand-modelled primitives (vtable slot forwarding), allocation-state and initial-state rules; coverage analysis of the collector's own Collect impls",
               "Decides the local obligations O1-O8 of the tri-colour safety argument for every abstract colour/phase/queue "
               "state and every MIR path (normal and unwind) of the collector primitives, barriers and sanctioned adoption "
               "paths, and the free-site discipline over the resolved call graph. The global theorem is the paper induction "
@@ -44,7 +44,7 @@ CLAIMED = {
                 "state at once; it is the right level because the property is structural (who may call what).",
         "note": TRUSTED,
     },
-    "C04": _c(TS + "; CFG rule for the live flag",
+    "C04": _c(TS + "; CFG rule for the live flag; CFG must-pass-through contracts of GcPtr::drop_in_place / dealloc and their vtable slots; sibling term agreement of request and release layouts",
               "Exactly-once destruction as a typestate invariant (S6) over all reachable abstract states incl. unwind exits; the "
               "arena-drop walk over all short list shapes from every phase; no use after release inside the collector; live flag "
               "set only at allocation. Allocator-side accounting on histories is not decided."),
@@ -80,15 +80,15 @@ CLAIMED.update({
               "Variance, 'static-impl and re-branding facts are global facts of the type-checked program, so they settle the "
               "question for all client programs; the escape corpus (88 probes, each compiled twice against the current tree) pins "
               "each escape route through each callback entry point. rustc's own lifetime checking is trusted."),
-    "C13": _c("impl-table / signature / who-may-call rules over the type-checked program + compile-fail witnesses (incl. the three exploit programs)",
+    "C13": _c("impl-table / signature / who-may-call rules over the type-checked program + inventory of exported macro_rules! whose expansion contains unsafe + compile-fail witnesses (incl. the three exploit programs)",
               "Enumerates every way safe code can obtain a &Write<T> or an unlocked cell (transmute producers, DerefWrite / IndexWrite / "
               "Unlock implementors, lock.rs mutators) and checks each against a reviewed soundness criterion. Found and fixed the "
               "unsound DerefWrite impls (fix 96d609a). The closing meta-theorem is a paper argument (DESIGN.md §7)."),
-    "C17": _c("sibling term agreement on uninterpreted terms (abstract interpretation of alloc vs dealloc MIR) + abstract-address interpretation of the flag accessors + no-address-arithmetic scan",
+    "C17": _c("sibling term agreement on uninterpreted terms (abstract interpretation of alloc vs dealloc MIR) + abstract-address interpretation of the flag accessors + per-path dependence of every value-layout function on its type parameters + no-address-arithmetic / no-foreign-metadata scan over every caller of a raw pointer constructor",
               "Decides request/release layout agreement, writer/reader offset agreement and the flag encode/decode round trip for all "
               "tag states from the MIR; the arithmetic inside Layout::extend/pad_to_align (alignment, disjointness for every size) "
               "is delegated to std's contract and listed as not decided."),
-    "C19": _c("no-address-arithmetic scan over conversion closures + ordering-domain interpretation of the ZstCache guard + type-signature conjuring lint + witnesses",
+    "C19": _c("no-address-arithmetic / no-foreign-metadata scan over the named conversions and every caller of a raw pointer constructor + ordering-domain interpretation of the ZstCache guard + type-signature conjuring lint + witnesses",
               "Identity of every named conversion as a structural fact of its MIR; the ZstCache guard over all orderings of "
               "size/align/MAX_ALIGN; the conjuring lint over the whole public API (found ZstCache::alloc_zst, fix f123ef0)."),
     "C20": _c("item + MIR scan for shared mutable state in every feature configuration, with a positive-control fixture crate; construction who-may-call rules; abstract interpretation of the dynamic-root gate (fetch/try_fetch/contains) on terms",
